@@ -178,7 +178,7 @@ theorem regress_F14a :
 
 /-- former F14b: a flow without methods is registered ONCE, for any method: HEAD is managed. -/
 theorem regress_F14b :
-    let f : Flow := ⟨"f1", "api.com/x", []⟩
+    let f : Flow := ⟨"f1", "api.com/x", [], false⟩
     methodOK f "HEAD" = true ∧ (registered (.flows [f])).length = 1 ∧
     registered (.flows [f]) = ["[^:]+:::api\\.com/x$".toList] ∧
     managedB (.flows [f]) "HEAD" f.url = true ∧ managedB (.flows [f]) "GET" f.url = true := by
@@ -278,7 +278,7 @@ example :
 
 /-- `c14_holds_partial` speaks about non-trivial configurations. -/
 example :
-    let cfg := Cfg.flows [⟨"f1", "api.com/users/{id}", ["GET", "POST"]⟩, ⟨"f2", "api.com/v1/*", []⟩]
+    let cfg := Cfg.flows [⟨"f1", "api.com/users/{id}", ["GET", "POST"], false⟩, ⟨"f2", "api.com/v1/*", [], false⟩]
     (∀ n ∈ ["f1"], (findDecl (declsOf cfg) n).isSome = true) ∧
     (registered cfg).length = 3 ∧
     managedB cfg "POST" "api.com/users/7" = true ∧ managedB cfg "HEAD" "api.com/users/7" = false ∧
